@@ -46,12 +46,12 @@ def name_of(d):
     b = os.path.basename(d)
     if re.fullmatch(r"m\d+", b):
         meta = json.load(open(os.path.join(d, "meta.json")))
-        tag = os.path.basename(os.path.dirname(os.path.dirname(d)))
-        return "%s-%s-%s" % (meta.get("property", "C??"), tag, b)
+        tag = os.path.basename(os.path.dirname(os.path.dirname(os.path.dirname(d))))
+        return "%s-%s%s" % (meta.get("property", "C??"), tag, b)
     return b
 
 
-def confirm(d, L):
+def confirm(d, L, equivalent=False):
     C = os.path.join(L, "confirm")
     wt_add(C)
     os.makedirs(os.path.join(C, "tests"), exist_ok=True)
@@ -75,9 +75,10 @@ def confirm(d, L):
         res["allfeat_ok"] = rc == 0
         rc, out = sh('cargo test --offline --features "%s" --test demo_mut 2>&1' % feat, cwd=C, env=env, timeout=1200)
         res["changed_demo_fails"] = rc != 0 and ("test result: FAILED" in out or "error: test failed" in out) and "error[" not in out
+        res["changed_demo_ok"] = rc == 0 and "test result: ok" in out
         res["changed_demo_tail"] = "\n".join(l for l in out.splitlines() if "panicked" in l or "assert" in l)[:600]
     wt_rm(C)
-    res["confirmed"] = all(res.get(k) for k in ("unchanged_demo_ok", "applies", "lib_ok", "allfeat_ok", "changed_demo_fails"))
+    res["confirmed"] = all(res.get(k) for k in ("unchanged_demo_ok", "applies", "lib_ok", "allfeat_ok", "changed_demo_ok" if equivalent else "changed_demo_fails"))
     return res
 
 
@@ -129,12 +130,13 @@ def cmd_eval(args):
         nm = name_of(d)
         res = {"name": nm, "dir": d, "property": prop, "verif_commit": head.strip()}
         if do_confirm:
-            res["confirm"] = confirm(d, L)
+            res["confirm"] = confirm(d, L, meta.get("kind") == "equivalent")
+        res["kind"] = meta.get("kind", "breaking")
         res["check"] = run_check(d, prop, L, tier, jobs)
         json.dump(res, open(os.path.join(L, "results", nm + ".json"), "w"), indent=1)
         c = res["check"]
         print("%s: %s exit=%s %ss %s %s" % (nm, ("confirmed" if res.get("confirm", {}).get("confirmed") else "NOT-CONFIRMED " + json.dumps({k: v for k, v in res.get("confirm", {}).items() if k != "changed_demo_tail"})) if do_confirm else "-",
-                                          c.get("exit"), c.get("secs"), "CAUGHT" if c.get("caught") else "MISSED", (c.get("violations") or c.get("other") or [""])[0]), flush=True)
+                                          c.get("exit"), c.get("secs"), ("QUIET-OK" if c.get("exit") == 0 else "FALSE-ALARM") if res["kind"] == "equivalent" else ("CAUGHT" if c.get("caught") else "MISSED"), (c.get("violations") or c.get("other") or [""])[0]), flush=True)
     if not keep_lane:
         for sub in ("build", "out", "verif", "confirm-target", "repo", "confirm"):
             shutil.rmtree(os.path.join(L, sub), ignore_errors=True)
